@@ -1,8 +1,88 @@
 import PydjinniModel.Drv.C05
+import PydjinniModel.Drv.GenJson
 import PydjinniModel.Gen.Deps
-/-! Driver handlers for property C01 (dependencies / includes of generated headers). -/
+import PydjinniModel.Gen.Keywords
+/-! Driver handlers for property C01 (dependencies / includes of generated headers; reserved identifiers). -/
 namespace Pydjinni.Drv.C01
 open Lean Pydjinni.Front Pydjinni.Gen Pydjinni.Drv.FrontJson Pydjinni.Drv.C05
+
+/-! ### `c01.kwname`: outcome of name-producing marshalling properties (`Gen/Keywords.lean : nameOutcome`)
+
+`{"tables": {"C++": [...], "Java": [...], "Objective-C": [...], "C++/CLI": [...], "Swift": [...]},
+  "styles": [[generator, key, {"case", "pfx"}]…], "base": [[generator, [component…]]…], "objc_prefix": "…",
+  "cases": [{"gen", "cls", "attr", "ns": […], "name", "base": bool, "anon": bool}…]}`
+answers `{"answers": [{"ok": text, "role"} | {"err": token, "lang", "role"} | {"unmodelled": true}]}`. -/
+section kw
+open Pydjinni.Gen.Keywords Pydjinni.Drv
+
+def kwTables (j : Json) : Except String Tables := do
+  let t ← j.getObjVal? "tables"
+  let cxx ← GenJson.getStrs t "C++"
+  let java ← GenJson.getStrs t "Java"
+  let objc ← GenJson.getStrs t "Objective-C"
+  let cli ← GenJson.getStrs t "C++/CLI"
+  let swift ← GenJson.getStrs t "Swift"
+  pure { cxx := cxx, java := java, objc := objc, cli := cli, swift := swift }
+
+def kwStyles (j : Json) : Except String (List ((String × String) × Style)) := do
+  let rows ← GenJson.getArr j "styles"
+  rows.mapM (fun r => match r with
+    | .arr #[.str g, .str k, st] => do pure ((g, k), ← GenJson.decodeStyle st)
+    | _ => throw "styles: [generator, key, style] expected")
+
+def kwBase (j : Json) : Except String (List (String × List String)) := do
+  let rows ← GenJson.getArr j "base"
+  rows.mapM (fun r => match r with
+    | .arr #[.str g, .arr comps] => do
+      pure (g, ← comps.toList.mapM (fun x => match x with | .str s => pure s | _ => throw "base: string expected"))
+    | _ => throw "base: [generator, components] expected")
+
+def kwAnswer (T : Tables) (c : Keywords.Cfg) (styles : List ((String × String) × Style)) (cj : Json) : Except String Json := do
+  let gen ← GenJson.getStr cj "gen"
+  let cls ← GenJson.getStr cj "cls"
+  let attr ← GenJson.getStr cj "attr"
+  match specOf gen cls attr with
+  | none => pure (Json.mkObj [("unmodelled", true)])
+  | some sp =>
+    let needs := (if sp.fixed.isNone then [sp.styleKey] else []) ++
+      (match sp.shape with
+       | .objcType | .qualified _ _ => (match nsSpecOf gen with | some n => if n.fixed.isNone then [n.styleKey] else [] | none => [])
+       | _ => [])
+    for k in needs do
+      unless styles.any (fun r => r.1 == (gen, k)) do throw s!"no identifier style {gen}.{k} in the request"
+    let ns ← GenJson.getStrs cj "ns"
+    let name ← GenJson.getStr cj "name"
+    let isBase ← GenJson.getBool cj "base"
+    let isAnon ← GenJson.getBool cj "anon"
+    let d : Keywords.Decl := { ns := ns, name := name, base := isBase, anon := isAnon }
+    match specOutcome T c gen sp d with
+    | .ok s => pure (Json.mkObj [("ok", s), ("role", sp.role)])
+    | .error (.invalidIdentifier l w) => pure (Json.mkObj [("err", w), ("lang", l.name), ("role", sp.role)])
+
+def kwHandle (req : Json) : Except String Json := do
+  let T ← kwTables req
+  let styles ← kwStyles req
+  let base ← kwBase req
+  let pfx ← GenJson.getStr req "objc_prefix"
+  let styleF : String → String → Style := fun g k => ((styles.find? (fun r => r.1 == (g, k))).map (·.2)).getD { case := .none }
+  let baseF : String → List String := fun g => ((base.find? (fun r => r.1 == g)).map (·.2)).getD []
+  let c : Keywords.Cfg := { style := styleF, base := baseF, objcPrefix := pfx }
+  let cases ← GenJson.getArr req "cases"
+  let answers ← cases.mapM (kwAnswer T c styles)
+  pure (Json.mkObj [("answers", Json.arr answers.toArray)])
+/-- `c01.kwref`: the specification side as data, for the failing-input search of the harness -/
+def kwRef : Json :=
+  let triples (l : List (String × String × String)) : Json :=
+    Json.arr (l.map (fun t => Json.arr #[Json.str t.1, Json.str t.2.1, Json.str t.2.2])).toArray
+  Json.mkObj [
+    ("reference", Json.mkObj [("C++", GenJson.strsJ cxxReserved), ("Java", GenJson.strsJ javaReserved),
+                              ("Objective-C", GenJson.strsJ objcReserved), ("C++/CLI", GenJson.strsJ cliReserved)]),
+    ("allowed", triples allowed), ("known", triples knownUnvalidated), ("not_modelled", triples notModelled),
+    ("lang_of", Json.mkObj (["cpp", "jni", "java", "objc", "cppcli"].map (fun g =>
+        (g, match langOfGen g with | some l => Json.str l.name | none => Json.null)))),
+    ("specs", Json.arr (specTable.map (fun r => Json.mkObj [("gen", r.1), ("cls", r.2.1), ("attr", r.2.2.1), ("role", r.2.2.2.role),
+        ("validated", Json.arr (r.2.2.2.checks.map (fun p => Json.arr #[Json.str p.1.name, GenJson.strsJ p.2.toList])).toArray)])).toArray)]
+end kw
 
 def anonKey (keys : List String) (sig : FnSig) : String := "<anon>:" ++ anonName keys sig
 
@@ -40,6 +120,8 @@ def handle (op : String) (req : Json) : Except String Json :=
       pure (Json.mkObj [("syntax", true), ("units", Json.arr (units.map (fun (k, _, ds, ms) =>
         Json.mkObj [("key", k), ("deps", depsJ cfg.keys reg ds), ("needsOptional", ds.any (·.optional)),
                     ("mentions", strsJ (ms.map (fun (ns, n) => match lexicalLookup reg ns n with | some x => x.key | none => "?" ++ n)))])).toArray)])
+  | "c01.kwname" => kwHandle req
+  | "c01.kwref" => pure kwRef
   | _ => throw s!"unknown op {op}"
 
 end Pydjinni.Drv.C01
